@@ -269,10 +269,13 @@ def machine_factory(ctx):
                 sc["units"][c] = alt[sc["units"][c]]
             elif kind == "t_ref":
                 sc["t_ref"] = {"mjd": 51234.5, "scale": "tcb", "format": "mjd"} if sc["t_ref"] is None or sc["t_ref"]["mjd"] != 51234.5 else None
+                must_refuse = True   # rows referred to another epoch are other orbits
             elif kind == "poly":
                 sc["poly"] = sc["poly"] + 1
+                must_refuse = True
             elif kind == "noff":
                 sc["noff"] = sc["noff"] + 1
+                must_refuse = True
             new = values_from_seed(seed + 7, n, sc["cols"])
             p = self.path(k)
             h = sha(p)
@@ -284,8 +287,9 @@ def machine_factory(ctx):
                 self.ops.append("append_refused:" + kind)
                 return
             if must_refuse:
-                raise Violation("an append that changes the column set (%s column) was accepted" % kind,
-                                file_columns=schema["cols"], appended_columns=sc["cols"])
+                raise Violation("an incompatible append (%s) was accepted" % kind,
+                                file_columns=schema["cols"], appended_columns=sc["cols"],
+                                file_meta=(schema["t_ref"], schema["poly"], schema["noff"]), appended_meta=(sc["t_ref"], sc["poly"], sc["noff"]))
             # accepted: the file must now be model ++ new table, by column name, in the file's units
             merged = {}
             for c in schema["cols"]:
